@@ -59,3 +59,7 @@ def cases(rng, tier):
 
 def search(rng, ops, broken):
     return cases(rng, "quick")
+
+
+# tie theorems (substrings of SLV.Gen.*Tie theorem names) this property's operators depend on
+TIE = ['cfuse', 'afuse', 'wfuse', 'convert', 'toOpinion', 'ofOpinion', 'compute_simlex', 'compute_base_rate', 'gen_fuse', 'gen_check_simplex_eq', 'gen_check_base_rate_eq', 'BSimplex_try_new', 'gen_try_new_eq', 'gen_new_eq']
